@@ -63,6 +63,11 @@ class Ctx:
         cfg = scn["cfg"]
         self.count("lp_" + cfg["lp"]["k"])
         self.count("np_" + ((cfg.get("np") or {}).get("k", "none")))
+        if scn.get("big"):
+            self.count("big_scenarios")
+        n_rows = sum(len(op.get("d") or []) for op in scn.get("ops", []))
+        self.count("rows_le_100" if n_rows <= 100 else ("rows_le_1000" if n_rows <= 1000 else "rows_gt_1000"))
+        self.count("arms_le_5" if len(cfg["arms"]) <= 5 else "arms_gt_5")
         if len(self.samples) < 3:
             self.samples.append(compact(scn))
 
